@@ -448,35 +448,46 @@ type shape struct {
 	budget  int
 	atomic  bool
 	only    string // "" = once per transport; else only this transport
+	opt     string // comma list: sym, lazy, drop-commit (the only fault kind is one lost Commit request)
 }
 
 // configs lists what each tier explores (every shape once per transport).
 func configs(thorough bool) []Cfg {
 	shapes := []shape{
-		{"rmw|-", 2, 0, false, ""}, {"rmw|-", 2, 1, false, ""}, {"rmw|-", 1, 2, false, ""},
-		{"rmw|rmw", 2, 0, false, ""}, {"rmw|rmw", 2, 1, false, ""},
-		{"blind|rmw", 2, 0, false, ""}, {"blind|rmw", 2, 1, false, ""},
-		{"rmw+rmw|rmw", 2, 0, false, ""},
-		{"rmw|-|-", 1, 1, false, ""},
-		{"rmw|rmw|-", 2, 0, true, ""},
+		{"rmw|-", 2, 0, false, "", ""}, {"rmw|-", 2, 1, false, "", ""}, {"rmw|-", 1, 2, false, "", ""},
+		{"rmw|rmw", 2, 0, false, "", ""}, {"rmw|rmw", 2, 1, false, "", ""},
+		{"blind|rmw", 2, 0, false, "", ""}, {"blind|rmw", 2, 1, false, "", ""},
+		{"rmw+rmw|rmw", 2, 0, false, "", ""},
+		{"rmw|-|-", 1, 1, false, "", ""},
+		{"rmw|rmw|-", 2, 0, true, "", ""},
 		// a proposer that runs two sections against a second proposer and a lagging acceptor: a late
 		// Commit of version k meets an accept for version k+1 (quick: one transport; thorough: all)
-		{"rmw+rmw|rmw|-", 2, 0, true, "direct"},
+		{"rmw+rmw|rmw|-", 2, 0, true, "direct", ""},
+		// five replicas (the smallest size at which a proposer can learn the next version, from a competitor
+		// that won with a disjoint majority, before it rolls back its own proposal): two writers, three
+		// interchangeable passive replicas, one attempt each, one lost Commit (quick: one transport)
+		{"rmw|rmw|-|-|-", 1, 1, true, "direct", "sym,lazy,drop-commit"},
 	}
 	if thorough {
 		shapes[len(shapes)-1].only = ""
+		shapes[len(shapes)-2].only = ""
 		shapes = append(shapes,
-			shape{"rmw+rmw|rmw", 2, 1, false, ""},
-			shape{"rmw+blind|rmw+rmw", 2, 0, false, ""},
-			shape{"rmw|rmw", 3, 2, false, ""},
-			shape{"rmw|-|-", 2, 1, false, ""},
-			shape{"rmw|rmw|-", 2, 0, false, ""},
-			shape{"rmw|rmw|-", 2, 1, true, ""},
-			shape{"rmw|rmw|rmw", 2, 0, true, ""},
-			shape{"rmw|blind|rmw", 2, 1, true, ""},
-			shape{"rmw|rmw|-|-", 2, 0, true, ""},
-			shape{"rmw|rmw|-|-", 2, 1, true, ""},
-			shape{"rmw|rmw|rmw|-", 2, 0, true, ""},
+			shape{"rmw+rmw|rmw", 2, 1, false, "", ""},
+			shape{"rmw+blind|rmw+rmw", 2, 0, false, "", ""},
+			shape{"rmw|rmw", 3, 2, false, "", ""},
+			shape{"rmw|-|-", 2, 1, false, "", ""},
+			shape{"rmw|rmw|-", 2, 0, false, "", ""},
+			shape{"rmw|rmw|-", 2, 1, true, "", ""},
+			shape{"rmw|rmw|rmw", 2, 0, true, "", "sym"},
+			shape{"rmw|blind|rmw", 2, 1, true, "", ""},
+			shape{"rmw|rmw|-|-", 2, 0, true, "", "sym"},
+			shape{"rmw|rmw|-|-", 2, 1, true, "", "sym"},
+			shape{"rmw|rmw|rmw|-", 2, 0, true, "", "sym"},
+			// five replicas, larger variants (time-capped): every fault kind and eager timers; two attempts
+			// without faults; three writers with one lost Commit
+			shape{"rmw|rmw|-|-|-", 1, 1, true, "", "sym"},
+			shape{"rmw|rmw|-|-|-", 2, 0, true, "", "sym,lazy"},
+			shape{"rmw|rmw|rmw|-|-", 1, 1, true, "", "sym,lazy,drop-commit"},
 		)
 	}
 	var out []Cfg
@@ -485,7 +496,21 @@ func configs(thorough bool) []Cfg {
 			if sh.only != "" && sh.only != tr {
 				continue
 			}
-			out = append(out, Cfg{Transport: tr, Scripts: scripts(sh.scripts), MaxAttempts: sh.att, Budget: sh.budget, Faults: faultsFor(tr, sh.budget), MaxSteps: 400, Atomic: sh.atomic})
+			c := Cfg{Transport: tr, Scripts: scripts(sh.scripts), MaxAttempts: sh.att, Budget: sh.budget, Faults: faultsFor(tr, sh.budget), MaxSteps: 400, Atomic: sh.atomic}
+			for _, o := range strings.Split(sh.opt, ",") {
+				switch o {
+				case "sym":
+					c.Sym = true
+				case "lazy":
+					c.LazyTimers = true
+				case "drop-commit":
+					// the in-process transport has no loss: there the only fault kind stays sibling-abort
+					if tr != "local" && sh.budget > 0 {
+						c.Faults = []string{"drop-commit"}
+					}
+				}
+			}
+			out = append(out, c)
 		}
 	}
 	return out
@@ -518,6 +543,7 @@ func TestCheck(t *testing.T) {
 			"node operations are issued in the order MPCalContext.Run issues them (Read/Write, PreCommit, then Commit, or Abort after any refusal; Abort after a successful PreCommit models a sibling resource that refused); a section is retried at most max_attempts times, after which the node stops (a slow node)",
 			"virtual time: the scheduler advances the clock by 1 microsecond per step so that SenderTime strictly increases per sender as a nanosecond wall clock does; back-off and 1 s retry sleeps elapse only when the scheduler chooses the move 'time'; the relative order of two concurrently pending timers is the one the code's own back-off values give (not enumerated), and state-key pruning ignores absolute time",
 			"release is judged only for a pre-commit whose version has not been installed anywhere (the lock really blocks that version); a replica that missed a Commit and stays locked for an already decided version is counted (stale_accept_decided_version), not judged",
+			"reductions used where the configuration name says so: 'sym' = nodes with the same script (passive replicas; writers that only increment) are interchangeable: the state key is the smallest rendering over their permutations, of several moves that address passive replicas in identical situations with the same message only one is offered, and the probe phase visits interchangeable nodes in an order that depends on their state only (sound: every oracle is invariant under such a permutation; back-off durations, which depend on the node name, are not enumerated anyway); 'atomic-rpc', 'lazy-timers' (timers fire only when nothing else can happen), 'only-drop-commit' (the single fault is one lost Commit request) and max_attempts are restrictions of the schedule space, stated per configuration; within them the enumeration is exhaustive",
 			"lost message = the sender's Send returns an error (what RPCReplicaHandle does on timeout or connection error), either without the receiver ever seeing the request (drop-req), after it processed it (drop-reply), or before it processes it later (timeout); loss, timeout and duplication are not applied to the in-process transport (a function call cannot be lost)",
 		}
 		dir := os.Getenv("VERIF_SCRATCH")
@@ -572,7 +598,7 @@ func TestCheck(t *testing.T) {
 		}
 		start := time.Now()
 		// a single configuration never takes more than its share of the tier's budget
-		jobCap := 150 * time.Second
+		jobCap := 240 * time.Second
 		if env.Thorough() {
 			jobCap = 20 * time.Minute
 		}
@@ -742,7 +768,7 @@ func TestCheck(t *testing.T) {
 			"probe_sections_run":           probeRuns,
 			"probe_sections_not_committed": probeFailed,
 			"transports":                   []string{"local (LocalReplicaHandle -> receiveInternal)", "direct (Receive, same pointers)", "gob (encoding/gob round trip + Receive = RPCReplicaHandle path)"},
-			"not_enumerated":               "5-7 replicas; more than 2 sections per node; relative order of two concurrently pending timers; goroutine interleavings inside one resource between two scheduler points (they only read local state and park)",
+			"not_enumerated":               "6-7 replicas; 5 replicas beyond the listed configurations (two or three writers, one or two attempts, passive replicas otherwise); more than 2 sections per node; relative order of two concurrently pending timers; goroutine interleavings inside one resource between two scheduler points (they only read local state and park)",
 			"wall_s_exploration":           time.Since(start).Seconds(),
 			"child_processes":              par,
 			"real_rpc_cross_check":         realRPCCrossCheck(),
